@@ -171,6 +171,13 @@ theorem tieA_iterator_DownlinkRemoteSetup (data : List Nat) :
   rw [h]
   exact gRun_tie _ _ _ TieA.FrameDownlinkRemoteSetup.Q TieA.FrameDownlinkRemoteSetup.Q_down TieA.FrameDownlinkRemoteSetup.P_tie _ data false trivial
 
+/-! non-vacuity: a concrete stream through the regenerated iterator (CID and payload octets of every item, `none` = the
+error item; the unread rest and the `errored` flag; budget not exhausted) -/
+example : (runFuelOf Gen.MacCmdFnDownlinkRemoteSetup.MacCommands.next (3 + 2) ⟨[1, 15, 3], false⟩).map
+    (fun r => (r.1.map (fun i => (TieA.FrameDownlinkRemoteSetup.itemOf i).toOption.map (fun c => (c.1, c.2.2.2))), TieA.FrameDownlinkRemoteSetup.stOf r.2.1, r.2.2))
+    = some ([some (1, [0x0F]), none], ([3], true), false) := by decide
+
+
 #print axioms tieA_parse_one_DownlinkRemoteSetup
 #print axioms tieA_next_DownlinkRemoteSetup
 #print axioms tieA_iterator_DownlinkRemoteSetup
